@@ -191,7 +191,7 @@ def main():
         explanation="rule level: %d distinct rule rows extracted from the real setter, 5 inductive obligations decided by the solver over a symbolic row (covers relation trees of any depth); tree level: all labelings of %d corpus trees (%d labelings) decided by the solver; IR level: %d root-to-protected-table paths of %d returned relations walked structurally (not a solver claim)" % (
             len(rows), n_prog * 2, labelings, walked, len(todo)),
         rule_rows=len(rows), programs=n_prog, labelings=labelings, ir_paths_walked=walked, ir_bad_paths=bad_paths,
-        obligations=sorted(obligations),
+        obligation_names=sorted(obligations), obligations=len(obligations), discharged=sum(1 for r in results if meta[r['id']]['kind']=='rule' and r['status']=='unsat'),
         bounds=dict(configurations="synthetic data on/off x Soft/Hard x protected (direct id, qualified path, foreign-key path) / public tables",
                     outside=["the lineage formulation over arbitrary emitted IR is only walked structurally on the corpus", "semantic non-interference is C01/C04/C05's business"]),
         evaluations=len(queries), distinct_nontrivial=len(set(q["script"] for q in queries)),
